@@ -211,6 +211,33 @@ func C06(c *core.Ctx) {
 			return []string{"balance", "--color=false", "-v", "CHF", "--months", "main.knut"}
 		})
 	}
+	// many files booking the same fresh commodities, with assertions on the totals (verdict and report)
+	for k := 0; k < c.Pick(2, 6); k++ {
+		for _, cmd := range [][]string{{"check"}, {"balance", "--color=false"}} {
+			k, cmd := k, cmd
+			add("heavy", fmt.Sprintf("%d files x 200 fresh commodities with assertions, %s", 50+10*k, cmd[0]), func(dir string) []string {
+				nf := 50 + 10*k
+				var main strings.Builder
+				main.WriteString("2020-01-01 open Assets:Depot\n2020-01-01 open Equity:Equity\n\n")
+				for f := 0; f < nf; f++ {
+					name := fmt.Sprintf("parts/p%03d.knut", f)
+					fmt.Fprintf(&main, "include \"%s\"\n", name)
+					var b strings.Builder
+					for t := 0; t < 200; t++ {
+						fmt.Fprintf(&b, "2020-02-%02d \"buy %d\"\nEquity:Equity Assets:Depot %d K%03dQ\n\n", 1+f%28, t, 1+t, t)
+					}
+					os.MkdirAll(filepath.Join(dir, "parts"), 0o755)
+					os.WriteFile(filepath.Join(dir, name), []byte(b.String()), 0o644)
+				}
+				main.WriteString("\n2020-03-01 balance\n")
+				for t := 0; t < 200; t++ {
+					fmt.Fprintf(&main, "Assets:Depot %d K%03dQ\n", nf*(1+t), t)
+				}
+				os.WriteFile(filepath.Join(dir, "main.knut"), []byte(main.String()), 0o644)
+				return append(append([]string{}, cmd...), "main.knut")
+			})
+		}
+	}
 	// infer with tied candidates
 	for k := 0; k < c.Pick(6, 40); k++ {
 		k := k
